@@ -137,26 +137,30 @@ Definition mpow (a : Mx) (n : nat) : Mx :=
   match n with O => midentity c | S k => mpow_from c c k end.
 
 (* ---- indexing ---- *)
-Inductive key1 := KInt (z : Z) | KSl (a b : option Z).
+(* a slice key carries its step; the code overwrites the step with 1 (slice(start, stop, 1)), i.e.
+   ignores it: `step_accepted` is the single place that says so *)
+Inductive key1 := KInt (z : Z) | KSl (a b st : option Z).
+Definition step_accepted (st : option Z) : bool := true.
 
 Definition neg_norm (n z : Z) : Z := if z <? 0 then n - Z.abs z else z.
 Definition chk (n s e : Z) : option (Z * Z) :=
   if (s >? n) || (e >? n) || (s <? 0) || (e <? 0) then None else Some (s, e).
-Definition sl_bounds (n : Z) (a b : option Z) : option (Z * Z) :=
+Definition sl_bounds (n : Z) (a b st : option Z) : option (Z * Z) :=
+  if negb (step_accepted st) then None else
   chk n (match a with None => 0 | Some s => neg_norm n s end)
         (match b with None => n | Some e => neg_norm n e end).
 (* __getitem__ normalises a negative int BEFORE building slice(i, i+1) *)
 Definition key_get (n : Z) (k : key1) : option (Z * Z) :=
   match k with
   | KInt z => let z' := neg_norm n z in if z' <? 0 then None else chk n z' (z' + 1)
-  | KSl a b => sl_bounds n a b
+  | KSl a b st => sl_bounds n a b st
   end.
 (* __setitem__ builds slice(i, i+1) first and normalises start and stop separately
    (so i = -1 gives slice(n-1, 0)) *)
 Definition key_set (n : Z) (k : key1) : option (Z * Z) :=
   match k with
   | KInt z => chk n (neg_norm n z) (neg_norm n (z + 1))
-  | KSl a b => sl_bounds n a b
+  | KSl a b st => sl_bounds n a b st
   end.
 
 (* self[kr, kc]; a single element is returned as a 1x1 result (it is a WireVector of width bits) *)
